@@ -84,6 +84,8 @@ func descByArgs(t *fnTable, name string, args ...string) *tables.Descriptor {
 }
 
 func runC13(c *core.Ctx) {
+	c.Rule("OVL", "overload candidates are tried independently")
+	checkOverloadLoops(c, "OVL")
 	ids := typeIDs(c.Prog)
 	c.Rule("TAB3", "arithmetic operators: operator, operand order, payloads, constructor")
 	c.Rule("TAB2", "library delegation with the intended arguments")
